@@ -25,6 +25,71 @@ thread_local! {
     static OUT: RefCell<Vec<String>> = RefCell::new(Vec::new());
 }
 
+#[derive(Clone, Copy)]
+pub struct Opts {
+    /// print S/P/H/O lines instead of the two digests
+    pub full: bool,
+    /// in digest mode, also print the start path of every iteration
+    pub starts: bool,
+    /// stop a program after this many iterations (reported as `DONE <max> capped`)
+    pub max_iters: usize,
+}
+
+pub fn fnv1a(s: &str) -> u64 {
+    let mut h: u64 = 0xCBF29CE484222325;
+    for b in s.bytes() {
+        h = (h ^ (b as u64)).wrapping_mul(0x100000001B3);
+    }
+    h
+}
+
+fn drop_tokens(pfx: &[&str], line: &str) -> String {
+    line.split(' ')
+        .filter(|t| !pfx.iter().any(|p| t.starts_with(p)))
+        .collect::<Vec<_>>()
+        .join(" ")
+}
+
+fn threads_safety(line: &str) -> String {
+    drop_tokens(&["d="], line)
+}
+
+fn obj_safety(line: &str) -> String {
+    drop_tokens(&["la=", "lnl=", "ls=", "lr=", "inc=", "dec=", "insp=", "mod="], line)
+}
+
+/// decisions and enabledness recorded in a path, without marks and counters
+fn path_safety_view(json: &str) -> String {
+    let v: serde_json::Value = serde_json::from_str(json).expect("path json");
+    let mut out = Vec::new();
+    for e in v["branches"]["entries"].as_array().unwrap() {
+        if let Some(s) = e.get("Schedule") {
+            let t: String = s["threads"]
+                .as_array()
+                .unwrap()
+                .iter()
+                .map(|x| match x.as_str().unwrap() {
+                    "Disabled" => 'D',
+                    "Yield" => 'Y',
+                    "Active" => 'A',
+                    _ => 'S',
+                })
+                .collect();
+            out.push(t);
+        } else if let Some(l) = e.get("Load") {
+            let len = l["len"].as_u64().unwrap() as usize;
+            let vals: Vec<String> = l["values"].as_array().unwrap()[..len]
+                .iter()
+                .map(|x| x.as_u64().unwrap().to_string())
+                .collect();
+            out.push(format!("L{}@{}", vals.join(","), l["pos"].as_u64().unwrap()));
+        } else if let Some(u) = e.get("Spurious") {
+            out.push(if u["spur"].as_bool().unwrap() { "U1".to_string() } else { "U0".to_string() });
+        }
+    }
+    out.join(" ")
+}
+
 fn out(s: String) {
     OUT.with(|o| o.borrow_mut().push(s));
 }
@@ -114,7 +179,7 @@ fn builder(cfg: &prog::Cfg) -> loom::model::Builder {
 }
 
 /// run one program to the end of its exploration (or its first panic); records go to OUT
-pub fn run_program(line: &str, checkpoint: Option<&str>) {
+pub fn run_program(line: &str, checkpoint: Option<&str>, opts: Opts) {
     out(format!("PROG {}", line));
     let prog = match prog::parse(line) {
         Some(p) => std::sync::Arc::new(p),
@@ -130,13 +195,20 @@ pub fn run_program(line: &str, checkpoint: Option<&str>) {
     let iters = Rc::new(std::cell::Cell::new(0usize));
     let iters2 = iters.clone();
     LOG.with(|l| l.borrow_mut().clear());
+    let start_path = Rc::new(RefCell::new(String::new()));
     loom::verif::set_iteration_hook(Some(Box::new(move |phase, i, path, threads, objects| {
         match phase {
             loom::verif::Phase::Start => {
+                if i > opts.max_iters {
+                    panic!("harness: cap");
+                }
                 iters2.set(iters2.get() + 1);
                 LOG.with(|l| l.borrow_mut().clear());
                 out(format!("IT {}", i));
-                out(format!("S {}", path));
+                if opts.full || opts.starts {
+                    out(format!("S {}", path));
+                }
+                *start_path.borrow_mut() = path.to_string();
             }
             loom::verif::Phase::End => {
                 LOG.with(|l| {
@@ -145,10 +217,27 @@ pub fn run_program(line: &str, checkpoint: Option<&str>) {
                     }
                 });
                 out("T ok".to_string());
-                out(format!("P {}", path));
-                out(format!("H {}", threads));
-                for o in objects.lines() {
-                    out(format!("O {}", o));
+                let olines: Vec<String> = objects.lines().map(|o| format!("O {}", o)).collect();
+                if opts.full {
+                    out(format!("P {}", path));
+                    out(format!("H {}", threads));
+                    for o in olines {
+                        out(o);
+                    }
+                } else {
+                    let mut full = vec![
+                        format!("S {}", start_path.borrow()),
+                        format!("P {}", path),
+                        format!("H {}", threads),
+                    ];
+                    full.extend(olines.iter().cloned());
+                    let mut safe = vec![
+                        format!("V {}", path_safety_view(path)),
+                        threads_safety(&format!("H {}", threads)),
+                    ];
+                    safe.extend(olines.iter().map(|o| obj_safety(o)));
+                    out(format!("XS {:016x}", fnv1a(&safe.join("\n"))));
+                    out(format!("XE {:016x}", fnv1a(&full.join("\n"))));
                 }
             }
         }
@@ -165,6 +254,10 @@ pub fn run_program(line: &str, checkpoint: Option<&str>) {
         Ok(()) => out(format!("DONE {} ok", iters.get())),
         Err(p) => {
             let class = classify(&payload_msg(&*p));
+            if class == "harnessError(harness: cap)" {
+                out(format!("DONE {} capped", iters.get()));
+                return;
+            }
             LOG.with(|l| {
                 for e in l.borrow_mut().drain(..) {
                     out(e);
@@ -190,6 +283,16 @@ fn flush_out() {
 fn main() {
     let args: Vec<String> = std::env::args().collect();
     let mode = args.get(1).map(|s| s.as_str()).unwrap_or("run");
+    let opts = Opts {
+        full: args.iter().any(|a| a == "--full"),
+        starts: args.iter().any(|a| a == "--starts"),
+        max_iters: args
+            .iter()
+            .position(|a| a == "--max")
+            .and_then(|i| args.get(i + 1))
+            .and_then(|v| v.parse().ok())
+            .unwrap_or(1_000_000),
+    };
     // loom prints nothing itself, but panics would print to stderr for every failing program
     std::panic::set_hook(Box::new(|_| {}));
     match mode {
@@ -204,7 +307,7 @@ fn main() {
                 // announce the program first so that an abort can be attributed to it
                 println!("BEGIN {}", line);
                 let _ = std::io::stdout().flush();
-                run_program(line, None);
+                run_program(line, None, opts);
                 flush_out();
             }
         }
